@@ -163,7 +163,8 @@ func (p *prog) texts() map[string]string {
 		"\n list li { key k; leaf k { type string; } " + p.tdsAt("L1") + " " + p.leafAt("ll") + " }" +
 		"\n grouping g { " + p.tdsAt("G1") + " " + p.leafAt("lg") + " } container u { uses g; }" +
 		"\n rpc r { " + p.tdsAt("R1") + " input { " + p.tdsAt("I2") + " " + p.leafAt("li") + " } output { " + p.tdsAt("O2") + " " + p.leafAt("lo") + " } }" +
-		"\n notification n { " + p.tdsAt("N1") + " " + p.leafAt("ln") + " }\n " + p.leafAt("ltop") + "\n}\n"
+		"\n notification n { " + p.tdsAt("N1") + " " + p.leafAt("ln") + " }\n " + p.leafAt("ltop") +
+		"\n grouping unused { action act { input { " + p.leafAt("la") + " } } }\n}\n"
 	as := "submodule as { belongs-to a { prefix a; } import y { prefix yy; } import b { prefix b; }\n " + p.tdsAt("S0") + " " + p.leafAt("ls") + "\n}\n"
 	b := "module b { namespace \"urn:b\"; prefix b; include bs;\n " + p.tdsAt("B0") + "\n}\n"
 	bs := "submodule bs { belongs-to b { prefix b; }\n " + p.tdsAt("BS0") + "\n}\n"
@@ -263,6 +264,13 @@ func exec(kind byte, body []byte) *core.Verdict {
 	var want rtype
 	json.Unmarshal(c.Type, &want)
 	l := find(yang.ToEntry(ms.Modules["a"]), c.Prog.Site)
+	if c.Prog.Site == "la" { // not in the module's tree: read from the grouping's own entry
+		for _, g := range ms.Modules["a"].Grouping {
+			if g.Name == "unused" {
+				l = find(yang.ToEntry(g), "la")
+			}
+		}
+	}
 	if l == nil || l.Type == nil {
 		return fail("leaf-without-type", "leaf %s has no resolved type", c.Prog.Site)
 	}
